@@ -37,6 +37,7 @@ def plan(tier, seed):
     for i in range(r):
         shards.append({'name': 'random-%d' % i, 'fn': 'shard_random', 'args': {'part': i, 'parts': r}})
     shards.append({'name': 'digest-collisions', 'fn': 'shard_collisions', 'args': {}})
+    shards.append({'name': 'large-repeats', 'fn': 'shard_large_repeats', 'args': {}})
     for i in range(2 if tier == 'quick' else 12):
         shards.append({'name': 'task-%d' % i, 'fn': 'shard_task', 'args': {'part': i}})
     return shards
@@ -259,6 +260,8 @@ def shard_task(sh, part):
         r[-1] = 'y%d' % (i % 2)
         if part % 2 == 0:
             r[0] = 'id%d' % (i // 2) if i < 60 else r[0]     # genuinely rare values; odd parts have none: the report must then be empty
+        if 120 <= i < 160:
+            r[2] = rng.choice(['', '{}'])                     # a field that is missing in every row of one whole mini-batch (0% coverage there, for B = 40 and 20)
     dpath = os.path.join(sh.scratch, 'data')
     os.makedirs(dpath, exist_ok=True)
     pipe.write_csv(os.path.join(dpath, 'data.csv'), cols, rows)
@@ -319,6 +322,32 @@ def shard_task(sh, part):
     vals = list(cards.items())
     for (b1, v1), (b2, v2) in zip(vals, vals[1:]):
         sh.check('files-split-independent', v1 == v2, 'annotated-cardinality-depends-on-minibatch-size', lambda: {'B_a': b1, 'B_b': b2, 'a': v1, 'b': v2})
+
+
+def shard_large_repeats(sh):
+    """Cardinality stays exact below the warm-up capacity (2^18) whatever the split: a feature with more than 2^17 distinct values that all
+    come back in a later mini-batch (cached values + the next batch's values exceed the capacity, their union does not)."""
+    import pandas as pd
+    rng = sh.rng('large-repeats')
+    for nd in ((140000,) if sh.tier == 'quick' else (131073, 140000, 200000, 262143)):
+        ids = ['id%07d' % i for i in range(nd)]
+        seq = ids + ids[::-1] + ids[: nd // 3]
+        got = {}
+        for split in ('one-batch', 'per-repetition', 'uneven'):
+            cr = pipe.fresh_core_ranking()
+            cuts = {'one-batch': [len(seq)], 'per-repetition': [nd, nd, len(seq) - 2 * nd], 'uneven': [nd // 2, nd, len(seq) - nd - nd // 2]}[split]
+            pos = 0
+            for size in cuts:
+                chunk = seq[pos:pos + size]
+                pos += size
+                df = pd.DataFrame({'big': chunk, 'label': [rng.choice(['0', '1']) for _ in chunk]})
+                ok, _ = sh.call('cardinality-exact', 'compute_cardinalities', cr.compute_cardinalities, df, pipe.NullPbar(), 30000)
+                if not ok:
+                    break
+            got[split] = len(cr.GLOBAL_CARDINALITY_STORAGE['big'])
+            sh.check('cardinality-exact', got[split] == nd, 'cardinality!=distinct-count-below-warm-up-capacity', lambda: {'distinct': nd, 'reported': got[split], 'batch_sizes': cuts})
+        sh.check('split-independence', len(set(got.values())) == 1, 'statistics-depend-on-batch-split', lambda: {'distinct': nd, 'reported_by_split': got})
+        sh.case(('large-repeats', nd), True, 'large-repeats', sample={'distinct': nd, 'rows': len(seq), 'reported_by_split': got})
 
 
 def shard_collisions(sh):
